@@ -154,6 +154,32 @@ func (g *vfGen) raceStress() {
 		go worker(i, r)
 	}
 	time.Sleep(time.Duration(secs) * time.Second)
+	// burst: several goroutines extend the same parents back to back, released together, while the
+	// detect / lookup workers keep the read lock busy — a read-copy-then-store Extend loses insertions here
+	{
+		var bw sync.WaitGroup
+		gate := make(chan struct{})
+		for w := 0; w < 8; w++ {
+			bw.Add(1)
+			go func(w int) {
+				defer bw.Done()
+				<-gate
+				for j := 0; j < 40; j++ {
+					name := fmt.Sprintf("application/x-verif-race-burst-%d-%d", w, j)
+					marker := []byte("VERIF-BURST-" + name)
+					det := func(raw []byte, _ uint32) bool { return bytes.HasPrefix(raw, marker) }
+					if j%2 == 0 {
+						Extend(det, name, ".vr")
+					} else if p := Lookup("text/plain"); p != nil {
+						p.Extend(det, name, ".vr")
+					}
+					registered.Store(name, true)
+				}
+			}(w)
+		}
+		close(gate)
+		bw.Wait()
+	}
 	close(stop)
 	wg.Wait()
 	// every extension that was registered must still be there
